@@ -89,6 +89,7 @@ type Result struct {
 // Sim is the state of the one simulation active in this process.
 type Sim struct {
 	cfg     Config
+	fin     chan struct{} // closed when Run returns: finished tasks wait for it
 	tasks   []*task
 	current *task
 	pre     map[[2]int64]int
@@ -463,6 +464,10 @@ func taskMain(s *Sim, t *task, ready chan struct{}) {
 	t.g = 0
 	t.state = stDone
 	raceEnable()
+	// stay alive until the run is over: the race detector recycles the context of a goroutine that has
+	// finished, and with it goes what it knew about that goroutine's earlier accesses (a race against a task that
+	// had already returned was reported or not depending on how warm the process was)
+	<-s.fin
 }
 
 // Go replaces `go f(...)` in the instrumented copy: a goroutine started by a task becomes a
@@ -508,7 +513,8 @@ func Run(cfg Config, fns []func()) *Result {
 		cfg.HangAfter = 10 * time.Minute
 	}
 	res := &Result{}
-	s := &Sim{cfg: cfg, res: res, rng: Sub(cfg.Seed, "sched"), mapRng: cfg.MapSeed}
+	s := &Sim{cfg: cfg, res: res, rng: Sub(cfg.Seed, "sched"), mapRng: cfg.MapSeed, fin: make(chan struct{})}
+	defer close(s.fin)
 	if cfg.Replay != nil {
 		s.pre = make(map[[2]int64]int, len(cfg.Replay.Pre))
 		for _, p := range cfg.Replay.Pre {
